@@ -408,6 +408,7 @@ struct OpsCase {
 
 static void runOpsCase(Rng &rng, uint64_t id, size_t nops) {
 	std::cout << "case " << id << " ops\n";
+	std::cout.flush();
 	{
 		OpsCase c(rng, std::cout);
 		for (size_t i = 0; i < nops; i++) c.step();
@@ -448,10 +449,26 @@ static void dumpAt(const char *what, hlim::Circuit &c) {
 	std::cout << "at " << what << '\n';
 	Maps m = mapsOf(c);
 	dumpGraph(std::cout, c, m, true);
+	std::cout.flush();   // a crash inside the next pass must leave the case header and the last boundary in the stream
+}
+
+// Control of the spare capacity of Circuit::m_nodes (unobservable for correct code): before every pass the vector is shrunk
+// to size()+r, r in 0..5, so that the (r+1)-th node a pass creates reallocates the vector *inside* that pass. A pass that keeps a
+// reference / iterator into m_nodes across createNode() then reads freed memory (crash under MALLOC_PERTURB_ / ASan).
+static Rng *g_capRng = nullptr;
+static size_t g_capBefore = 0;
+static void tighten(hlim::Circuit &c) {
+	auto &v = c.getNodes();
+	if (g_capRng) { v.shrink_to_fit(); v.reserve(v.size() + g_capRng->below(6)); }
+	g_capBefore = v.capacity();
+}
+static void passDone(const char *pass, hlim::Circuit &c) {
+	if (c.getNodes().capacity() != g_capBefore) std::cout << "rl " << pass << '\n';   // m_nodes was reallocated inside this pass
+	tighten(c);
 }
 
 // pass-boundary hook of /repo (guard GATERY_VERIF): called after every pass inside Default/MinimalPostprocessing
-static void hookBoundary(const char *pass, hlim::Circuit &c) { dumpAt(pass, c); }
+static void hookBoundary(const char *pass, hlim::Circuit &c) { passDone(pass, c); dumpAt(pass, c); }
 struct HookScope {
 	HookScope() { hlim::verif_passBoundary = &hookBoundary; }
 	~HookScope() { hlim::verif_passBoundary = nullptr; }
@@ -461,7 +478,7 @@ struct HookScope {
 struct SteppedPostprocessing : public hlim::PostProcessor {
 	bool dumps;
 	explicit SteppedPostprocessing(bool d) : dumps(d) {}
-	void at(const char *w, hlim::Circuit &c) const { if (dumps) dumpAt(w, c); }
+	void at(const char *w, hlim::Circuit &c) const { passDone(w, c); if (dumps) dumpAt(w, c); }
 	void generalOptimization(hlim::Circuit &circuit) const {
 		using namespace hlim;
 		circuit.insertConstUndefinedNodes(); at("insertConstUndefinedNodes", circuit);
@@ -519,8 +536,29 @@ struct DesignGen {
 	Rng &rng;
 	std::vector<UInt> vecs;
 	std::vector<Bit> bits;
+	std::vector<UInt> zeros;     // zero-width signals
 	size_t nameCtr = 0;
 	explicit DesignGen(Rng &r) : rng(r) {}
+
+	UInt &z() { return zeros[rng.below(zeros.size())]; }
+	// statements around zero-width signals: 0-bit pins, slices, constants, concatenations, registers, muxes, compares, extensions
+	// feeding wider logic, 0-bit output pins
+	void zstmt() {
+		unsigned k = (unsigned) rng.below(100);
+		if (zeros.empty() || k < 12) { UInt e = pinIn(0_b).setName(name("zin")); zeros.push_back(e); }
+		else if (k < 22) { UInt a = v(); UInt e = a(rng.below(a.width().bits() + 1), 0_b); zeros.push_back(e); }
+		else if (k < 27) { UInt e = ConstUInt(0, 0_b); zeros.push_back(e); }
+		else if (k < 33) { UInt e = cat(z(), z()); zeros.push_back(e); }
+		else if (k < 39) { UInt e = rng.chance(1, 2) ? reg(z()) : reg(z(), ConstUInt(0, 0_b)); zeros.push_back(e); }
+		else if (k < 45) { UInt e = mux(b(), {z(), z()}); zeros.push_back(e); }
+		else if (k < 51) { UInt e = z(); UInt o = z(); IF (b()) e = o; zeros.push_back(e); }
+		else if (k < 57) { Bit r = (z() == z()); maybeName(r); bits.push_back(r); }
+		else if (k < 73) { UInt r = zext(z(), BitWidth{(unsigned)(1 + rng.below(4))}); maybeName(r); vecs.push_back(r); }
+		else if (k < 85) { UInt a = v(); UInt r = rng.chance(1, 2) ? cat(z(), a) : cat(a, z()); if (r.width().bits() <= 80) vecs.push_back(r); }
+		else if (k < 90) { UInt a = v(); UInt r = a + zext(z(), a.width()); vecs.push_back(r); }
+		else if (k < 94) { UInt e = z(); if (rng.chance(1, 2)) e.setName(name("zs")); zeros.push_back(e); }
+		else pinOut(z()).setName(name("zout"));
+	}
 
 	size_t genWidth() { return rng.chance(1, 12) ? 60 + rng.below(11) : 1 + rng.below(6); }
 	std::string name(const char *p) { return std::string(p) + std::to_string(nameCtr++); }
@@ -597,10 +635,22 @@ struct DesignGen {
 				if (rng.chance(1, 2)) y = fit(v(), w);
 			}
 			maybeName(y); vecs.push_back(y);
-		} else if (k < 95 && depth < 2) { // sub-entity / area
+		} else if (k < 93 && depth < 2) { // sub-entity / area
 			Area area(name("area"), true);
 			size_t n = 1 + rng.below(4);
 			for (size_t i = 0; i < n; i++) stmt(depth + 1);
+		} else if (k < 98) { // patterns for the node-creating passes: compare-with-constant mux chain, undriven signal, constant operands
+			UInt sel = fit(v(), 2); UInt a = v(); size_t w = a.width().bits(); UInt y = a;
+			size_t n = 2 + rng.below(3);
+			for (size_t i = 0; i < n; i++) { IF (sel == ConstUInt(i, 2_b)) y = fit(v(), w); }
+			vecs.push_back(y);
+			if (rng.chance(1, 2)) { UInt undriven = BitWidth{(unsigned)w}; UInt r = a ^ undriven; vecs.push_back(r); }
+			if (rng.chance(1, 2)) { // register with an enable of its own whose input is a mux of itself (foldRegisterMuxEnableLoops)
+				UInt cnt = BitWidth{(unsigned)w}; Bit en1 = b(), en2 = b(); UInt nxt = cnt + 1;
+				ENIF (en1) { IF (en2) cnt = nxt; cnt = reg(cnt, 0); }
+				vecs.push_back(cnt);
+			}
+			if (rng.chance(1, 2)) { UInt r = (ConstUInt(rng.below(1u << std::min<size_t>(w, 20)), BitWidth{(unsigned)w}) & ConstUInt(1, BitWidth{(unsigned)w})) | a; vecs.push_back(r); }
 		} else { // constant
 			size_t w = genWidth();
 			UInt c = ConstUInt(rng.below(1ull << std::min<size_t>(w, 30)), BitWidth{(unsigned)w});
@@ -612,7 +662,12 @@ struct DesignGen {
 static void runDesignCase(Rng &rng, uint64_t id, size_t nstmts) {
 	unsigned variant = (unsigned) rng.below(6);
 	static const char *vn[] = {"default", "minimal", "stepped", "shuffled-stepped", "twice", "default-norefs"};
-	std::cout << "case " << id << " design " << vn[variant] << '\n';
+	bool tight = rng.chance(3, 4);        // m_nodes capacity kept just above its size before every pass
+	unsigned zeroMode = (unsigned) rng.below(3);   // 0: no zero-width signals, 1: some, 2: dominated by zero-width signals
+	Rng capRng = rng.fork();
+	g_capRng = tight ? &capRng : nullptr;
+	std::cout << "case " << id << " design " << vn[variant] << (tight ? " tight" : " loose") << " zero" << zeroMode << '\n';
+	std::cout.flush();
 	try {
 		DesignScope design;
 		{
@@ -622,8 +677,10 @@ static void runDesignCase(Rng &rng, uint64_t id, size_t nstmts) {
 			size_t nin = 2 + rng.below(3);
 			for (size_t i = 0; i < nin; i++) { UInt a = pinIn(BitWidth{(unsigned)g.genWidth()}).setName(g.name("in")); g.vecs.push_back(a); }
 			for (size_t i = 0; i < 2; i++) { Bit a = pinIn().setName(g.name("inb")); g.bits.push_back(a); }
+			size_t nzero = zeroMode == 0 ? 0 : zeroMode == 1 ? 3 + rng.below(12) : 30 + rng.below(170);
 			for (size_t i = 0; i < nstmts; i++) {
 				g.stmt(0);
+				for (size_t j = (nzero + nstmts - 1 - i) / nstmts; j > 0 && nzero > 0; j--, nzero--) g.zstmt();
 				if (rng.chance(1, 10)) dumpAt("construction", design.getCircuit());
 			}
 			size_t nout = 1 + rng.below(4);
@@ -632,8 +689,9 @@ static void runDesignCase(Rng &rng, uint64_t id, size_t nstmts) {
 				else pinOut(g.bits[g.bits.size() - 1 - rng.below(std::min<size_t>(g.bits.size(), 4))]).setName(g.name("outb"));
 			}
 			dumpAt("constructed", design.getCircuit());
-			if (variant == 5) { g.vecs.clear(); g.bits.clear(); }  // no frontend references left during post-processing
+			if (variant == 5) { g.vecs.clear(); g.bits.clear(); g.zeros.clear(); }  // no frontend references left during post-processing
 			auto &circuit = design.getCircuit();
+			tighten(circuit);
 			try {
 				switch (variant) {
 					case 0: case 5: { HookScope hk; design.postprocess(); } dumpAt("postprocess", circuit); break;
@@ -651,6 +709,7 @@ static void runDesignCase(Rng &rng, uint64_t id, size_t nstmts) {
 		}
 	} catch (const utils::InternalError &e) { std::cout << "build internal\n"; }
 	  catch (const utils::DesignError &e) { std::cout << "build design\n"; }
+	g_capRng = nullptr;
 	std::cout << "end\n";
 }
 
